@@ -354,6 +354,8 @@ fn byte_level(msg: &str) -> Option<&'static str> {
         Some("eof")
     } else if msg.contains("Invalid UTF-8") {
         Some("badutf8")
+    } else if msg.contains("Invalid date:") || msg.contains("Invalid time:") || msg.contains("Invalid timestamp:") || msg.contains("Invalid interval:") {
+        Some("badtemporal")
     } else if msg.contains("Unknown type tag") {
         Some("badtag")
     } else if msg.contains("Unknown expression tag") {
@@ -1134,6 +1136,128 @@ fn main() {
                     let mut b = bytes.clone();
                     b[i] = sb;
                     binary_case(&mut cx, &mut rep, "trigger_subst", &b, &format!("{}\nbyte {} (trigger section {}..{}) {:02x} -> {:02x}", origin, i, lo, hi, orig, sb));
+                }
+            }
+        }
+    }
+    // ---- every VALUE of the data section re-read under every other type tag; near-miss payload texts -------
+    {
+        use vibesql_types::DataType as D;
+        let texts: Vec<String> = [
+            "1-6 YEAR TO", "TO", "1 DAY TO ", "A B TO", "1 2 3 TO", "x y to", "1-6 YEAR TO      ", "1 DAY TO TO", "TO TO TO", "漢 字 TO", "1-6 YEAR TO MONTH",
+            "5 12:30:45 DAY TO SECOND", "1 YEAR TO MONTH", "99999999999999999999 YEAR", "5", "-5 DAY", "1-6", "3 04:05:06.007", "2024-13-45", "2024-02-30", "2024-01-01",
+            "9999999999-01-01", "-1-1-1", "--", "-", "", " ", "25:61:61", "12:00", "12:00:00.", "12:00:00.05", "12:00:00.1234567890123", "00:00:00.-1", "12:00:00.ééééé",
+            ":", "::", "2024-01-01 25:00:00", "2024-01-01T00:00:00", "2024-01-01 00:00:00+", "2024-01-01 00:00:00+99:99", "2024-01-01 00:00:00.5-08:00", "2024-01-01 ",
+            "1e999", "NaN", "007", "é", "\u{10ffff}", "a'b",
+        ]
+        .iter()
+        .map(|x| x.to_string())
+        .collect();
+        // fixture V: one VARCHAR column, one row per text; fixture W: typed columns with one row
+        let mut fx: Vec<(String, Vec<u8>)> = vec![];
+        {
+            let mut db = Database::new();
+            let _ = db.create_table(vibesql_catalog::TableSchema::new("NV".to_string(), vec![vibesql_catalog::ColumnSchema { name: "S".into(), data_type: D::Varchar { max_length: None }, nullable: true, default_value: None }]));
+            for t in &texts {
+                let _ = db.insert_row("NV", vibesql_storage::Row::new(vec![V::Varchar(t.clone())]));
+            }
+            let p = cx.dir.join("nv.vbsql");
+            if db.save_binary(&p).is_ok() {
+                fx.push(("VARCHAR column holding the near-miss temporal / numeric texts".into(), std::fs::read(&p).unwrap_or_default()));
+            }
+        }
+        {
+            let mut db = Database::new();
+            let types = [D::Integer, D::Smallint, D::Bigint, D::Unsigned, D::Numeric { precision: 10, scale: 2 }, D::Float { precision: 24 }, D::Real, D::DoublePrecision, D::Character { length: 12 }, D::Varchar { max_length: None }, D::Boolean, D::Date, D::Time { with_timezone: false }, D::Timestamp { with_timezone: false }];
+            let cols: Vec<vibesql_catalog::ColumnSchema> = types.iter().enumerate().map(|(i, t)| vibesql_catalog::ColumnSchema { name: format!("W{}", i), data_type: t.clone(), nullable: true, default_value: None }).collect();
+            let _ = db.create_table(vibesql_catalog::TableSchema::new("TW".to_string(), cols.clone()));
+            let row = vec![
+                V::Integer(-5), V::Smallint(7), V::Bigint(1 << 40), V::Unsigned(u64::MAX), V::Numeric(0.05), V::Float(1.5), V::Real(-0.0), V::Double(f64::NAN), V::Character("1 DAY TO".into()), V::Varchar("1-6 YEAR TO".into()), V::Boolean(true),
+                V::Date(vibesql_types::Date::new(2024, 2, 29).unwrap()), V::Time(vibesql_types::Time::new(12, 0, 0, 50_000_000).unwrap()),
+                V::Timestamp(vibesql_types::Timestamp::new(vibesql_types::Date::new(1999, 12, 31).unwrap(), vibesql_types::Time::new(23, 59, 59, 1).unwrap())),
+            ];
+            let _ = db.insert_row("TW", vibesql_storage::Row::new(row));
+            let p = cx.dir.join("tw.vbsql");
+            if db.save_binary(&p).is_ok() {
+                fx.push(("one row with a value of every storable type".into(), std::fs::read(&p).unwrap_or_default()));
+            }
+        }
+        let all_tags: [u8; 16] = [0x00, 0x01, 0x02, 0x03, 0x04, 0x05, 0x06, 0x07, 0x08, 0x10, 0x11, 0x20, 0x30, 0x31, 0x32, 0x33];
+        let quick = args.quick();
+        for (what, bytes) in &fx {
+            binary_case(&mut cx, &mut rep, "valid", bytes, what);
+            let lay = cx.m.ask(&format!("layout {}", hex(bytes)));
+            let tags: Vec<usize> = Sx::parse(&lay)
+                .and_then(|s| s.as_list().map(|l| l.to_vec()))
+                .unwrap_or_default()
+                .iter()
+                .filter_map(|x| {
+                    let l = x.as_list()?;
+                    if l[0].as_atom()? == "tag" { l[1].as_atom()?.parse().ok() } else { None }
+                })
+                .collect();
+            rep.add("value_tags_located", tags.len() as u64);
+            if tags.is_empty() {
+                rep.fail(FailKind::ModelDiff, None, "the model's layout finds no value tag in a fixture file", &format!("{}\nfile: {}\nmodel: {}", what, hex(bytes), lay.chars().take(300).collect::<String>()));
+            }
+            for (ti, off) in tags.iter().enumerate() {
+                for t in all_tags {
+                    // quick: the four text-parsed tags on every value, the others on every third value
+                    let textual = matches!(t, 0x30..=0x33);
+                    if t == bytes[*off] || (quick && !textual && ti % 3 != (t as usize) % 3) {
+                        continue;
+                    }
+                    let mut b = bytes.clone();
+                    b[*off] = t;
+                    binary_case(&mut cx, &mut rep, "value_retag", &b, &format!("{}\nvalue #{}: type tag at byte {} {:02x} -> {:02x}", what, ti, off, bytes[*off], t));
+                }
+            }
+        }
+        // the same texts through the JSON loader: every typed cell's text replaced (oracle only)
+        {
+            let mut db = Database::new();
+            let types = [D::Integer, D::Date, D::Time { with_timezone: false }, D::Timestamp { with_timezone: false }, D::Interval { start_field: vibesql_types::IntervalField::Year, end_field: Some(vibesql_types::IntervalField::Month) }, D::Numeric { precision: 10, scale: 2 }, D::Varchar { max_length: None }, D::Character { length: 4 }, D::Name];
+            let cols: Vec<vibesql_catalog::ColumnSchema> = types.iter().enumerate().map(|(i, t)| vibesql_catalog::ColumnSchema { name: format!("J{}", i), data_type: t.clone(), nullable: true, default_value: None }).collect();
+            let _ = db.create_table(vibesql_catalog::TableSchema::new("TJ".to_string(), cols));
+            let _ = db.insert_row(
+                "TJ",
+                vibesql_storage::Row::new(vec![
+                    V::Integer(1), V::Date(vibesql_types::Date::new(2024, 2, 29).unwrap()), V::Time(vibesql_types::Time::new(12, 0, 0, 50_000_000).unwrap()),
+                    V::Timestamp(vibesql_types::Timestamp::new(vibesql_types::Date::new(1999, 12, 31).unwrap(), vibesql_types::Time::new(23, 59, 59, 1).unwrap())),
+                    V::Interval(vibesql_types::Interval::new("1-6 YEAR TO MONTH".into())), V::Numeric(2.5), V::Varchar("MARKV".into()), V::Character("MARK".into()), V::Varchar("MARKN".into()),
+                ]),
+            );
+            let pj = cx.dir.join("cells.json");
+            if db.save_json(&pj).is_ok() {
+                let json = std::fs::read_to_string(&pj).unwrap_or_default();
+                other_case(&mut cx, &mut rep, "json", "json", "valid", json.as_bytes(), "JSON fixture with DATE / TIME / TIMESTAMP / INTERVAL / NUMERIC / string cells");
+                let cells = ["\"2024-02-29\"", "\"12:00:00.05\"", "\"1999-12-31 23:59:59.000000001\"", "\"1-6 YEAR TO MONTH\"", "\"MARKV\"", "\"MARK\"", "\"MARKN\"", "2.5"];
+                let mut found = 0;
+                for cell in cells {
+                    if !json.contains(cell) {
+                        continue;
+                    }
+                    found += 1;
+                    for t in &texts {
+                        let esc: String = t.chars().map(|c| if c == '"' || c == '\\' || c.is_control() { ' ' } else { c }).collect();
+                        let j = json.replacen(cell, &format!("\"{}\"", esc), 1);
+                        other_case(&mut cx, &mut rep, "json", "json", "cell_text", j.as_bytes(), &format!("JSON cell {} replaced by {:?}", cell, t));
+                    }
+                    // words blanked / removed
+                    let inner = cell.trim_matches('"');
+                    let words: Vec<&str> = inner.split(' ').collect();
+                    for wi in 0..words.len() {
+                        let removed: Vec<&str> = words.iter().enumerate().filter(|(i, _)| *i != wi).map(|(_, w)| *w).collect();
+                        let blanked: Vec<String> = words.iter().enumerate().map(|(i, w)| if i == wi { " ".repeat(w.len()) } else { w.to_string() }).collect();
+                        for v in [removed.join(" "), blanked.join(" ")] {
+                            let j = json.replacen(cell, &format!("\"{}\"", v), 1);
+                            other_case(&mut cx, &mut rep, "json", "json", "cell_words", j.as_bytes(), &format!("JSON cell {} -> {:?}", cell, v));
+                        }
+                    }
+                }
+                rep.add("json_cells_located", found);
+                if found < 6 {
+                    rep.fail(FailKind::Oracle, None, "the JSON fixture does not contain the expected typed cells", &json);
                 }
             }
         }
